@@ -93,7 +93,7 @@ func runSolver(s SolverCfg, query string, timeoutS int) (result string, out stri
 	case "timeout":
 		return "timeout", out, dur
 	}
-	if ctx.Err() != nil || first == "" {
+	if ctx.Err() != nil || first == "" || strings.Contains(out, "interrupted by timeout") {
 		return "timeout", out, dur
 	}
 	return "error", out, dur
